@@ -27,6 +27,8 @@ func (o SOp) fields(k int) rt.M {
 }
 
 type svcWorld struct {
+	nc    nameClass
+	zig   bool
 	store *rt.BoltStore
 	snap  *rt.SnapStore
 	as    *alertservice.Service
@@ -34,9 +36,10 @@ type svcWorld struct {
 	onTx  func(phase string, r *txRec)
 }
 
-func openSvc(path string, lineage int64) *svcWorld {
+func openSvc(path string, names int, zig bool) *svcWorld {
 	// the first real topic name is a proper prefix of the second (bucket names in a key-ordered store)
-	w := &svcWorld{names: map[string]string{"anon": fmt.Sprintf("S%d", lineage), "named": fmt.Sprintf("S%d_high", lineage)}}
+	nc := nameClasses[names]
+	w := &svcWorld{nc: nc, zig: zig, names: map[string]string{"anon": nc.Topics[0], "named": nc.Topics[1]}}
 	d := rt.NewDiag()
 	st, err := rt.NewBoltStore(path, true, d)
 	if err != nil {
@@ -51,14 +54,19 @@ func openSvc(path string, lineage int64) *svcWorld {
 			w.onTx("begin", nil)
 			return
 		}
-		if err != nil || len(ops) != 1 {
+		if err != nil || len(ops) > 1 {
 			rt.Fatalf("c08svc: unexpected topic store transaction: err=%v ops=%+v", err, ops)
+		}
+		if len(ops) == 0 {
+			// a transaction that committed without writing anything
+			w.onTx("end", &txRec{Op: "none"})
+			return
 		}
 		o := ops[0]
 		r := &txRec{Op: o.Op}
 		switch {
 		case len(o.Bucket) == 1:
-			r.Topic, r.ID = w.model(o.Bucket[0]), o.Key
+			r.Topic, r.ID = w.model(o.Bucket[0]), w.nc.modelID(o.Key)
 			if o.Op == "put" {
 				var es alertservice.EventState
 				if e := es.UnmarshalJSON(o.Value); e != nil {
@@ -103,7 +111,7 @@ func (w *svcWorld) close() {
 }
 
 func (w *svcWorld) state() rt.M {
-	return rt.M{"anon": stateOf(w.as, w.names["anon"]), "named": stateOf(w.as, w.names["named"])}
+	return rt.M{"anon": stateOf(w.as, w.names["anon"], w.nc), "named": stateOf(w.as, w.names["named"], w.nc)}
 }
 
 func (w *svcWorld) apply(k int, o SOp) {
@@ -111,8 +119,8 @@ func (w *svcWorld) apply(k int, o SOp) {
 	var err error
 	switch o.Op {
 	case "collect":
-		err = w.as.Collect(alert.Event{Topic: real, State: alert.EventState{ID: o.ID, Level: alert.Level(o.Lvl),
-			Time: rt.DefaultTime.T(k), Message: fmt.Sprintf("m%d", k)}})
+		err = w.as.Collect(alert.Event{Topic: real, State: alert.EventState{ID: w.nc.realID(o.ID), Level: alert.Level(o.Lvl),
+			Time: rt.DefaultTime.T(timeIndex(w.zig, k)), Message: fmt.Sprintf("m%d", k)}})
 	case "close":
 		err = w.as.CloseTopic(real)
 	case "delete":
@@ -135,14 +143,20 @@ func (w *svcWorld) runOps(ops []SOp, from int, log *[]rt.M, snapshot func(phase 
 			}
 			return
 		}
-		*log = append(*log, ev("Tx", rt.M{"topic": r.Topic, "id": r.ID, "op": r.Op, "lvl": r.Lvl, "state": pre["state"], "src": "collect"}))
+		src := "collect"
+		if r.Op == "none" {
+			src = "none"
+		}
+		*log = append(*log, ev("Tx", rt.M{"topic": r.Topic, "id": r.ID, "op": r.Op, "lvl": r.Lvl, "state": pre["state"], "src": src}))
 		if snapshot != nil {
 			snapshot("after", cur, nil)
 		}
 	}
 	for k := from; k < len(ops); k++ {
 		cur = k
-		*log = append(*log, ev("Op", ops[k].fields(k)))
+		of := ops[k].fields(k)
+		of["t"] = timeIndex(w.zig, k)
+		*log = append(*log, ev("Op", of))
 		w.apply(k, ops[k])
 		*log = append(*log, ev("Done", rt.M{"k": k, "state": w.state()}))
 		if snapshot != nil {
@@ -153,10 +167,10 @@ func (w *svcWorld) runOps(ops []SOp, from int, log *[]rt.M, snapshot func(phase 
 }
 
 // doSvc runs one operation history with a restart at every boundary; returns one trace per crash point.
-func doSvc(ops []SOp, lineage int64, lastOnly bool) [][]rt.M {
+func doSvc(ops []SOp, lastOnly bool, names int, zig bool) [][]rt.M {
 	dir := tmpDir()
 	defer os.RemoveAll(dir)
-	w := openSvc(join(dir, "run1.db"), lineage)
+	w := openSvc(join(dir, "run1.db"), names, zig)
 	var log []rt.M
 	var points []crashPoint
 	ntx := 0
@@ -194,7 +208,7 @@ func doSvc(ops []SOp, lineage int64, lastOnly bool) [][]rt.M {
 		if !ok {
 			file := fmt.Sprintf("%s.r%d", cp.file, cp.resume)
 			copyFile(cp.file, file)
-			w2 := openSvc(file, lineage)
+			w2 := openSvc(file, names, zig)
 			tail = append(tail, ev("Restart", rt.M{"state": w2.state()}))
 			w2.runOps(ops, cp.resume, &tail, nil)
 			tail = append(tail, ev("End", rt.M{"final2": w2.state()}))
